@@ -8,7 +8,7 @@ from hypothesis import strategies as st
 from vfw import gen_records, model_classify
 from vfw import classify_common as cc
 from vfw.core import Part, Violation
-from vfw.props.C02 import contention_records
+from vfw.props.C02 import contention_records, chain_records
 
 LEVEL = 'exploration'
 RULE = (
@@ -147,7 +147,7 @@ PARTS = [
     Part('records', check,
          strategy=lambda tier: st.one_of(
              gen_records.records(max_steps=30 if tier == 'quick' else 60),
-             contention_records()),
+             contention_records(), chain_records()),
          budget={'quick': 375, 'thorough': 4000},
          describe='storm / rise rows against maximal runs of the model'),
 ]
